@@ -96,7 +96,7 @@ def run(out: Outcome, drv, frontends=None):
     for it in range(n):
         if tab_ok := True:
             run_qcconfig(out, drv, gen.rng_for(out.seed, "C05", "qcconfig", it), maxn)
-        tab = sc.gen_table(rng, maxn)
+        tab = sc.gen_table(rng, maxn, allow_nat=True)
         ctxs = sc.gen_config(rng, tab)
         cfg = sc.config_dict(ctxs)
         wins = [[c["window"][0], c["window"][1]] for c in ctxs]
@@ -111,7 +111,8 @@ def run(out: Outcome, drv, frontends=None):
             fes += ["xarray_obs", "netcdf_obs"]
         if tab["n"] > 0 and (out.tier == "thorough" or it % 2 == 1):
             fes += ["pandas_named", "xarray_named", "netcdf_named"]
-        if tab["n"] > 0 and (out.tier == "thorough" or it % 5 == 0):
+        if tab["n"] > 0 and (out.tier == "thorough" or it % 5 == 0) and not tab["nat"]:
+            # (a NaT cannot be stored in the numeric time variable of the netCDF3 file)
             fes += ["netcdf_file", "xarray_file"]
         for fe in fes:
             case = {"frontend": fe, "table": tab, "contexts": ctxs}
@@ -122,7 +123,7 @@ def run(out: Outcome, drv, frontends=None):
             except Exception as e:  # noqa: BLE001
                 obs, probe, err = [], [], f"{type(e).__name__}: {e}"
             out.record(case, nontriv, [f"fe:{fe}", f"ctx:{len(ctxs)}", f"index:{tab['index_kind']}",
-                                       "partial-window" if nontriv else "all-rows"])
+                                       "partial-window" if nontriv else "all-rows"] + (["NaT-rows"] if tab["nat"] else []))
             if err is not None:
                 out.violation(f"{WHAT}: {fe} stream raised {err}", {"case": jsonable(case), "observed": err},
                               known_id=classify(fe, tab, ctxs, masks, err))
@@ -144,7 +145,7 @@ def run_qcconfig(out, drv, rng, maxn):
 
     from ioos_qc.config import QcConfig
 
-    tab = sc.gen_table(rng, maxn, streams=("_stream",))
+    tab = sc.gen_table(rng, maxn, streams=("_stream",), allow_nat=True)
     ctxs = sc.gen_config(rng, tab, tests=[t for t in sc.usable_tests(tab) if t != "probe"])
     cfg = sc.config_dict(ctxs)
     wins = [[c["window"][0], c["window"][1]] for c in ctxs]
